@@ -62,7 +62,8 @@ import (
 // real 1 s ticker; with 1000 h it never fires inside a run (rotation and head
 // deletion are C03's business).
 type rwWM struct {
-	writers []*walWriter
+	writers   []*walWriter
+	fileLimit int64 // > 0: rotation family - overrides the engine's FileLimit (500 KB..5 MB) so that a housekeeping tick rotates
 }
 
 func (m *rwWM) OpenForRead(id string) (WALReader, error) { return OpenWALForRead(id) }
@@ -71,12 +72,28 @@ func (m *rwWM) OpenForWrite(id string, cfg *WALConfig) (WALWriter, error) {
 	c := *cfg
 	c.HousekeepingInterval = 1000 * time.Hour
 	c.SyncInterval = 1000 * time.Hour
+	if m.fileLimit > 0 {
+		c.FileLimit = m.fileLimit
+		c.TotalLimit = 1 << 30 // never delete a head segment: losing own votes that way would be a configuration artefact
+	}
 	ww, err := OpenWALForWrite(id, &c)
 	if err != nil {
 		return nil, err
 	}
 	m.writers = append(m.writers, ww.(*walWriter))
 	return ww, nil
+}
+
+// tick is the housekeeping ticker of wal.go made an explicit event: one
+// doHousekeeping call per open writer (round, lock, commit), as the ticker
+// goroutine would do. It returns the text of a panic, if any.
+func (m *rwWM) tick() string {
+	for _, w := range m.writers {
+		if p := ev.Catch(w.doHousekeeping); p != "" {
+			return p
+		}
+	}
+	return ""
 }
 
 // reap stops the housekeeping goroutines of an abandoned ("crashed") engine.
@@ -222,6 +239,8 @@ type rwTier struct {
 	tear2             *crashfs.TearOptions
 	gens              int
 	laterSteps        int
+	tickEvery         int // rotation family: a housekeeping tick at the end of every tickEvery-th step (0 = never)
+	fileLimit         int64
 	stop              func() bool
 	res               *rwResult
 	seenPre, seenPost map[string]bool
@@ -231,7 +250,7 @@ type rwTier struct {
 func (t *rwTier) newNode(fs *crashfs.FS, book rwBook, now time.Time) (*csNode, *rwWM) {
 	n := &csNode{env: t.env, idx: t.v, w: t.env.wallets[t.v]}
 	n.world = vclock.NewWorld(now)
-	wm := &rwWM{}
+	wm := &rwWM{fileLimit: t.fileLimit}
 	n.wal = wm
 	n.durableCheck = func(rec []byte) bool { return rwDurable(fs, rec) }
 	n.signed = make(map[string]string, len(book.signed))
@@ -260,8 +279,24 @@ func (t *rwTier) step(inc *rwInc, evIdx int, desc string, before rwBook, fn func
 	s := rwStep{ev: evIdx, desc: desc, logStart: inc.fs.LogLen(), before: before}
 	inc.cur = &s
 	fn()
+	if t.tickEvery > 0 && (len(inc.steps)+1)%t.tickEvery == 0 && !inc.fs.Frozen() {
+		// part of the step: every file-system call of the tick is a crash position too
+		if p := inc.wm.tick(); p != "" && inc.n.panicked == "" {
+			inc.n.panicked = "housekeeping: " + p
+		}
+	}
 	inc.cur = nil
 	s.logEnd = inc.fs.LogLen()
+	if t.tickEvery > 0 {
+		for _, o := range inc.fs.Log()[s.logStart:s.logEnd] {
+			if o.Kind == crashfs.OpCreate && evIdx >= 0 {
+				t.res.Rotations++
+			}
+			if o.Kind == crashfs.OpRemove && evIdx < 0 {
+				t.res.RepairRemoves++
+			}
+		}
+	}
 	s.after = rwBookOf(inc.n)
 	inc.steps = append(inc.steps, s)
 	t.res.EngineSteps++
@@ -330,10 +365,12 @@ type rwCrash struct {
 }
 
 type rwCase struct {
-	RealWAL  bool      `json:"realwal"`
-	Schedule string    `json:"schedule"`
-	Node     int       `json:"validator"`
-	Crashes  []rwCrash `json:"crashes"`
+	RealWAL   bool      `json:"realwal"`
+	Schedule  string    `json:"schedule"`
+	Node      int       `json:"validator"`
+	TickEvery int       `json:"housekeeping_tick_every_steps,omitempty"`
+	FileLimit int64     `json:"wal_file_limit,omitempty"`
+	Crashes   []rwCrash `json:"crashes"`
 }
 
 type rwViolation struct {
@@ -349,6 +386,8 @@ type rwSpec struct {
 	LaterSteps int    `json:"later_generations_steps_after_restart"` // generations >= 2 crash only inside the restart and the next LaterSteps steps (0 = everywhere)
 	Thorough   bool   `json:"thorough"`
 	BudgetS    int    `json:"budget_s"`
+	TickEvery  int    `json:"housekeeping_tick_every_steps,omitempty"` // rotation family
+	FileLimit  int64  `json:"wal_file_limit,omitempty"`
 }
 
 type rwResult struct {
@@ -366,6 +405,8 @@ type rwResult struct {
 	Resigned      []string      `json:"cases_signed_again_after_restart"`
 	Violations    []rwViolation `json:"violations,omitempty"`
 	BeyondHeight1 int           `json:"observations_beyond_height_1_not_judged"`
+	Rotations     int           `json:"segments_created_by_housekeeping_ticks"`
+	RepairRemoves int           `json:"restarts_whose_repair_removed_a_segment"`
 	Complete      bool          `json:"complete"`
 	SelfTest      int           `json:"failafter_selftest_points"`
 	SelfTestBad   string        `json:"failafter_selftest_mismatch,omitempty"`
@@ -582,7 +623,7 @@ func (t *rwTier) explore(inc *rwInc, gen int, sofar []rwCrash) {
 				for f, b := range img.Files {
 					files[f] = len(b)
 				}
-				c := rwCase{RealWAL: true, Schedule: t.sched, Node: t.v,
+				c := rwCase{RealWAL: true, Schedule: t.sched, Node: t.v, TickEvery: t.tickEvery, FileLimit: t.fileLimit,
 					Crashes: append(append([]rwCrash(nil), sofar...), rwCrash{Step: s.ev, Pos: pi + 1, Desc: s.desc + ": " + p.desc, Files: files, Zero: zero})}
 				inc2 := t.restartOn(img, book, inc.n.world.NowT.Add(3*time.Second), next, gen, c)
 				if inc2 != nil {
@@ -641,7 +682,7 @@ func (t *rwTier) selfTest(full *rwInc) {
 			inc := t.start(crashfs.New(), rwBook{}, t.env.t0, 0)
 			t.cont(inc, s.ev) // the prefix, uninterrupted
 			inc.fs.FailAfter(k, crashfs.FailPanic)
-			rwApply(inc.n, t.evs[s.ev])
+			t.step(inc, s.ev, "self-test", rwBookOf(inc.n), func() { rwApply(inc.n, t.evs[s.ev]) }) // incl. the housekeeping tick, if due
 			want := full.fs.StateAt(s.logStart + k)
 			got := inc.fs.CrashState()
 			if !inc.fs.Frozen() || !strings.Contains(inc.n.panicked, "simulated crash") || fmt.Sprint(want.Files) != fmt.Sprint(got.Files) {
@@ -658,7 +699,7 @@ func runRealWALWorker(spec rwSpec) *rwResult {
 	t0 := time.Now()
 	res := &rwResult{Spec: spec, Complete: true}
 	sc, _ := rwSchedule(spec.Schedule)
-	t := &rwTier{env: sc.x.env, v: spec.Node, sched: spec.Schedule, res: res, gens: spec.Gens, laterSteps: spec.LaterSteps,
+	t := &rwTier{env: sc.x.env, v: spec.Node, sched: spec.Schedule, res: res, gens: spec.Gens, laterSteps: spec.LaterSteps, tickEvery: spec.TickEvery, fileLimit: spec.FileLimit,
 		seenPre: map[string]bool{}, seenPost: map[string]bool{}, sigSeen: map[string]int{}}
 	for _, e := range sc.trace {
 		if e.Node == spec.Node {
@@ -683,7 +724,7 @@ func runRealWALWorker(spec rwSpec) *rwResult {
 		res.BaseMismatch = fmt.Sprintf("real-WAL run of V%d differs from the base run: signed %q vs %q, finalized %v vs %v, panic %q",
 			spec.Node, full.n.signedProj(), bn.signedProj(), full.n.finalized, bn.finalized, full.n.panicked)
 	}
-	t.verdict(full, rwCase{RealWAL: true, Schedule: spec.Schedule, Node: spec.Node})
+	t.verdict(full, rwCase{RealWAL: true, Schedule: spec.Schedule, Node: spec.Node, TickEvery: spec.TickEvery, FileLimit: spec.FileLimit})
 	t.selfTest(full)
 	t.explore(full, 1, nil)
 	full.wm.reap()
@@ -713,7 +754,7 @@ func TestVerifC02RealWALWorker(t *testing.T) {
 func rwReplay(c rwCase) *rwResult {
 	res := &rwResult{Complete: true}
 	sc, _ := rwSchedule(c.Schedule)
-	t := &rwTier{env: sc.x.env, v: c.Node, sched: c.Schedule, res: res,
+	t := &rwTier{env: sc.x.env, v: c.Node, sched: c.Schedule, res: res, tickEvery: c.TickEvery, fileLimit: c.FileLimit,
 		seenPre: map[string]bool{}, seenPost: map[string]bool{}, sigSeen: map[string]int{}, stop: func() bool { return false }}
 	for _, e := range sc.trace {
 		if e.Node == c.Node {
@@ -784,6 +825,10 @@ func c02RealWALSpecs(thorough bool) []rwSpec {
 	add := func(s string, v, gens, budget int) {
 		out = append(out, rwSpec{Schedule: s, Node: v, Gens: gens, Thorough: thorough, BudgetS: budget})
 	}
+	rot := func(s string, v, gens, budget, tick int) {
+		add(s, v, gens, budget)
+		out[len(out)-1].TickEvery, out[len(out)-1].FileLimit = tick, 200 // a vote record is ~160 B: the tail exceeds the limit after two records
+	}
 	if !thorough {
 		for v := 0; v < 4; v++ {
 			add("happy", v, 2, 35)
@@ -797,6 +842,11 @@ func c02RealWALSpecs(thorough bool) []rwSpec {
 				add(s, v, 1, 35)
 			}
 		}
+		// rotation family (tiny FileLimit, housekeeping tick as an event)
+		rot("happy", 0, 2, 35, 1)
+		rot("happy", 2, 2, 35, 2)
+		rot("B4", 0, 1, 35, 1)
+		rot("B4", 1, 1, 35, 2)
 		return out
 	}
 	for v := 0; v < 4; v++ {
@@ -805,6 +855,16 @@ func c02RealWALSpecs(thorough bool) []rwSpec {
 	for _, s := range []string{"B4", "B3", "B5"} {
 		for v := 0; v < 3; v++ {
 			add(s, v, 2, 330)
+		}
+	}
+	for _, tick := range []int{1, 2, 3} {
+		for _, v := range []int{0, 1} {
+			rot("happy", v, 2, 330, tick)
+		}
+	}
+	for _, tick := range []int{1, 2} {
+		for _, v := range []int{0, 1} {
+			rot("B4", v, 2, 330, tick)
 		}
 	}
 	return out
@@ -827,7 +887,7 @@ func c02RealWAL(r *ev.Run, exe, work string) bool {
 			fmt.Sscan(os.Getenv("VERIF_BUDGET_S"), &spec.BudgetS)
 		}
 		sj, _ := json.Marshal(spec)
-		out := filepath.Join(work, fmt.Sprintf("realwal-%s-V%d-%d.json", spec.Schedule, spec.Node, os.Getpid()))
+		out := filepath.Join(work, fmt.Sprintf("realwal-%s-V%d-t%d-%d.json", spec.Schedule, spec.Node, spec.TickEvery, os.Getpid()))
 		cmd := exec.Command(exe, "-test.run", "^TestVerifC02RealWALWorker$", "-test.timeout", "60m")
 		cmd.Env = append(os.Environ(), "VERIF_C02RW_SPEC="+string(sj), "VERIF_C02RW_OUT="+out, "GOMAXPROCS=2", "GOGC=400")
 		if ob, err := cmd.CombinedOutput(); err != nil {
@@ -859,6 +919,12 @@ func c02RealWAL(r *ev.Run, exe, work string) bool {
 			continue
 		}
 		name := fmt.Sprintf("%s/V%d", specs[i].Schedule, specs[i].Node)
+		if specs[i].TickEvery > 0 {
+			name += fmt.Sprintf("/rotation(tick every %d, FileLimit %d)", specs[i].TickEvery, specs[i].FileLimit)
+			tot["realwal_rotation_family_crash_images"] += int64(res.Images[1] + res.Images[2] + res.Images[3])
+			tot["realwal_rotation_family_segments_created_by_ticks"] += int64(res.Rotations)
+			tot["realwal_rotation_family_repairs_that_removed_a_segment"] += int64(res.RepairRemoves)
+		}
 		cases := res.Images[1] + res.Images[2] + res.Images[3]
 		r.Eval(cases)
 		for _, k := range res.Resigned {
@@ -909,6 +975,7 @@ func c02RealWAL(r *ev.Run, exe, work string) bool {
 			sample = res.Sample
 		}
 		summary = append(summary, map[string]interface{}{"schedule": specs[i].Schedule, "validator": specs[i].Node, "generations": specs[i].Gens,
+			"housekeeping_tick_every_steps": specs[i].TickEvery, "wal_file_limit": specs[i].FileLimit,
 			"events": res.Events, "crash_positions": res.Positions, "crash_images": res.Images, "restarts": res.Restarts,
 			"continued": res.Continuations, "signed_again_after_restart": len(res.Resigned), "complete": res.Complete, "wall_s": res.WallS})
 	}
